@@ -183,7 +183,7 @@ def run(ctx):
 
     _lock_abstraction(ctx)
 
-    sim = vlib.tlc_sim(ctx, "ProviderSessions", "ProviderSessions_sim.cfg", num=ctx.pick(1000, 6000), depth=60,
+    sim = vlib.tlc_sim(ctx, "ProviderSessions", "ProviderSessions_sim.cfg", num=ctx.pick(1000, 3000), depth=60,
                        timeout=ctx.pick(600, 2400))
     behs = [_norm(b) for b in sim["behaviours"]]
     n_sim = len(behs)
